@@ -387,3 +387,657 @@ Proof.
     + intros o' X. destruct (Gc o' X) as (Gc1 & Gc2). split; [|exact Gc2].
       destruct (Nat.eq_dec o' o) as [->|N]; [rewrite upd_same; rewrite Ei; auto|rewrite upd_other by assumption; auto].
 Qed.
+
+(* ---- every label preserves the invariant ------------------------------------------------------------ *)
+Lemma fresh_thread_ok g o p md :
+  ref_ok g o p = true -> (forall k, ptab p k = false) -> p <> PClose4 -> thr_ok g (mkThread (At o p) md).
+Proof. unfold ref_ok, thr_ok. cbn. intros H Hp H4. apply andb_true_iff in H. destruct H as (A & B).
+  apply Nat.ltb_lt in A. repeat split; auto; [rewrite Hp; discriminate|intro; contradiction]. Qed.
+
+Lemma goto_call_inv g t o p md r :
+  Inv g -> (forall k, ptab p k = false) -> p <> PClose4 -> Inv (goto_call g t o p md r).
+Proof. intros HI Hp H4. unfold goto_call, with_thr.
+  destruct (ref_ok g o p) eqn:E; apply threads_inv; auto; intro t';
+    (destruct (Nat.eq_dec t' t) as [->|N]; [rewrite upd_same; right|rewrite upd_other by assumption; left; apply promoted_refl]).
+  - apply fresh_thread_ok; auto.
+  - exact I. Qed.
+
+Lemma entry_facts op o p : entry op = Some (o, p) -> (forall k, ptab p k = false) /\ p <> PClose4.
+Proof. destruct op; cbn; intro H; inversion H; subst; split; intros; try reflexivity; discriminate. Qed.
+
+Lemma alloc_inv g t k x :
+  Inv g -> k <> SDP ->
+  Inv (mkG (var g) (upd (sk g) (nsk g) (fresh k)) (S (nsk g)) (upd (thr g) t (set_ts (thr g t) (Done x)))
+           (term g) (llc_held g) (lpc g)).
+Proof.
+  intros (G & T & SS) Hk. destruct G as (Gv & Gd & Gt & Gc & Gh & Gn).
+  split; [|split].
+  - unfold glob_ok. cbn. split; [exact Gv|]. split; [|split; [|split; [|split]]]; auto; try lia.
+    + intro Hd. destruct (Gd Hd) as (X & Y & Z). repeat split; auto. intro o.
+      destruct (Nat.eq_dec o (nsk g)) as [->|N]; [rewrite upd_same; reflexivity|rewrite upd_other by assumption; auto].
+    + intro X. rewrite upd_other by lia. auto.
+    + intros o X. destruct (Gc o X) as (Gc1 & Gc2). split; [|lia]. rewrite upd_other by lia. exact Gc1.
+  - intro t'. cbn. destruct (Nat.eq_dec t' t) as [->|N]; [rewrite upd_same; exact I|rewrite upd_other by assumption].
+    eapply thr_ok_same_socks; [apply (T t')|cbn; lia|]. intros o Ho. cbn. apply upd_other. lia.
+  - intro o. unfold sock_ok. cbn. destruct (Nat.eq_dec o (nsk g)) as [->|N]; [rewrite upd_same|rewrite upd_other by assumption].
+    + destruct k; try contradiction; cbn; repeat split; auto; try discriminate; intro; lia.
+    + destruct (SS o) as (A & B & C & D & E & F). repeat split; auto; try apply C; auto. intro. apply F. lia.
+Qed.
+
+Lemma ctl_inv g term' held' lpc' :
+  Inv g -> (forall o, lpc g <> LClosing o) ->
+  glob_ok (mkG (var g) (sk g) (nsk g) (thr g) term' held' lpc') ->
+  Inv (mkG (var g) (sk g) (nsk g) (thr g) term' held' lpc').
+Proof.
+  intros HI Hl G'. pose proof HI as (G & T & SS). destruct G as (Gv & Gd & Gt & Gc & Gh & Gn).
+  apply (frame_inv g _ 0 HI); cbn.
+  - reflexivity.
+  - exact Gn.
+  - reflexivity.
+  - apply evolves_refl.
+  - intro t. left. apply promoted_refl.
+  - intros Hne Hs. contradiction.
+  - destruct (SS 0) as (A & B & C & D & E & F). unfold sock_ok. cbn. repeat split; auto; try apply C; auto.
+    intro X. destruct (A X) as [Y|[Y|Y]]; auto. exfalso. apply (Hl 0 Y).
+  - intros o' _ X. exfalso. apply (Hl o' X).
+  - exact G'.
+Qed.
+
+Lemma wake_promoted_all thr o cs : forall t, promoted (thr t) (wake_all thr o cs t).
+Proof. intro; apply wake_all_promoted. Qed.
+Lemma wake1_promoted_all thr o c w : forall t, promoted (thr t) (wake_one thr o c w t).
+Proof. intro; apply wake_one_promoted. Qed.
+
+Lemma step_inv g l : Inv g -> Inv (step g l).
+Proof.
+  intro HI. pose proof HI as (G & T & SS). destruct G as (Gv & Gd & Gt & Gc & Gh & Gn).
+  destruct l as [t op|t orc|t w|o x w|o d w|o n w|o| |t| |o| | |]; cbn [step].
+  - (* TIssue *)
+    destruct (ts (thr g t)) eqn:Ets; try exact HI. destruct (mode (thr g t)) eqn:Emd; try exact HI.
+    destruct op as [o|o e|o dw|o|o|o|o|o| |k|ls];
+      try (match goal with
+           | |- Inv (match entry ?op with _ => _ end) =>
+               destruct (entry op) as [[o' p']|] eqn:Een; [|exact HI];
+               destruct (ref_ok g o' p') eqn:Er; [|exact HI];
+               destruct (entry_facts _ _ _ Een) as (Hp & H4);
+               unfold with_thr; apply threads_inv; auto; intro t';
+               (destruct (Nat.eq_dec t' t) as [->|N];
+                [rewrite upd_same; right; apply fresh_thread_ok; auto|rewrite upd_other by assumption; left; apply promoted_refl])
+           end).
+    + (* ONew *) destruct k; try exact HI; apply alloc_inv; auto; discriminate.
+    + (* OServer *) destruct (ref_ok g ls PAcc1) eqn:Er; [|exact HI].
+      unfold with_thr. apply threads_inv; auto. intro t'.
+      destruct (Nat.eq_dec t' t) as [->|N]; [rewrite upd_same; right|rewrite upd_other by assumption; left; apply promoted_refl].
+      apply fresh_thread_ok; auto; discriminate.
+  - (* TRun *)
+    destruct (ts (thr g t)) as [|o p|o c p [|]|r] eqn:Ets; try exact HI;
+      (destruct (runnable_point g p) eqn:Er; [|exact HI]); apply run_seg_inv; auto;
+      try (left; exact Ets); try (right; exists c; exact Ets).
+  - (* TNext *)
+    destruct (ts (thr g t)) as [|o p|o c p b|r] eqn:Ets; try exact HI.
+    unfold next_of. destruct (mode (thr g t)) as [|ls|c ph|o how|how] eqn:Emd.
+    + unfold with_thr. apply threads_inv; auto. intro t'.
+      destruct (Nat.eq_dec t' t) as [->|N]; [rewrite upd_same; right; exact I|rewrite upd_other by assumption; left; apply promoted_refl].
+    + destruct r as [[| | |c|]|[]|c|]; try (apply goto_call_inv; auto; intros; try reflexivity; discriminate).
+      destruct (is_free g w t) eqn:Ef; [|exact HI].
+      destruct (ref_ok g c (PPoll0 PollRecv) && ref_ok g ls PAcc1) eqn:Er; unfold with_thr; apply threads_inv; auto; intro t'.
+      * apply andb_true_iff in Er. destruct Er as (R1 & R2).
+        destruct (Nat.eq_dec t' w) as [->|N]; [rewrite upd_same; right; apply fresh_thread_ok; auto; discriminate|].
+        rewrite upd_other by assumption.
+        destruct (Nat.eq_dec t' t) as [->|N']; [rewrite upd_same; right; apply fresh_thread_ok; auto; discriminate|].
+        rewrite upd_other by assumption. left; apply promoted_refl.
+      * destruct (Nat.eq_dec t' t) as [->|N]; [rewrite upd_same; right; exact I|rewrite upd_other by assumption; left; apply promoted_refl].
+    + destruct r as [[|[|]| |c'|]|[]|c'|]; try destruct ph as [|[|ph]];
+        apply goto_call_inv; auto; intros; try reflexivity; discriminate.
+    + unfold with_thr. apply threads_inv; auto. intro t'.
+      destruct (Nat.eq_dec t' t) as [->|N]; [rewrite upd_same; right; exact I|rewrite upd_other by assumption; left; apply promoted_refl].
+    + exact HI.
+  - (* LEnq *)
+    destruct (is_run (lpc g) && intab (sk g o) && Nat.ltb o (nsk g)) eqn:Hc; [|exact HI].
+    apply andb_true_iff in Hc. destruct Hc as (Hc & Hlt). apply andb_true_iff in Hc. destruct Hc as (_ & Hi).
+    apply Nat.ltb_lt in Hlt.
+    destruct (SS o) as (A & B & C & D & E & F).
+    destruct (kd (sk g o)) eqn:Ek; try exact HI.
+    + destruct (Nat.ltb (length (rq (sk g o))) (rbuf (sk g o))); [|exact HI].
+      apply data_inv; auto; cbn; auto using wake1_promoted_all. congruence.
+    + destruct (Nat.ltb (length (rq (sk g o))) (rbuf (sk g o))); [|exact HI].
+      apply data_inv; auto; cbn; auto using wake1_promoted_all. congruence.
+    + destruct (st (sk g o)) eqn:Est; destruct x; try exact HI;
+        try (destruct (Nat.ltb (length (rq (sk g o))) (rbuf (sk g o))));
+        try exact HI; apply data_inv; auto; cbn; auto using wake1_promoted_all, promoted_refl;
+        try (intros _ X; congruence); try (left; exact Est).
+      all: try (right; split; [exact Est|reflexivity]).
+      all: try (intros; apply promoted_refl).
+  - (* LDeq *)
+    destruct (is_run (lpc g) && intab (sk g o) && Nat.ltb o (nsk g) && Nat.ltb 0 (sq (sk g o))) eqn:Hc; [|exact HI].
+    apply andb_true_iff in Hc. destruct Hc as (Hc & _). apply andb_true_iff in Hc. destruct Hc as (Hc & Hlt).
+    apply andb_true_iff in Hc. destruct Hc as (_ & Hi). apply Nat.ltb_lt in Hlt.
+    destruct (SS o) as (A & B & C & D & E & F).
+    destruct (kd (sk g o)) eqn:Ek; destruct d; try (destruct (is_est (sk g o))); try (destruct (sstate_eqb (st (sk g o)) CLOSE_WAIT) eqn:Ecw);
+      apply data_inv; auto; cbn; auto using wake1_promoted_all, promoted_refl; try congruence;
+      try (intros; apply promoted_refl).
+    all: try (intros _ X; apply sstate_eqb_eq in Ecw; congruence).
+    all: try (intro t'; eapply promoted_trans; [apply wake_one_promoted|apply wake_all_promoted]).
+  - (* LAck *)
+    destruct (is_run (lpc g) && intab (sk g o) && Nat.ltb o (nsk g) && is_est (sk g o) && Nat.ltb 0 n) eqn:Hc; [|exact HI].
+    apply andb_true_iff in Hc. destruct Hc as (Hc & _). apply andb_true_iff in Hc. destruct Hc as (Hc & Hes).
+    apply andb_true_iff in Hc. destruct Hc as (Hc & Hlt). apply andb_true_iff in Hc. destruct Hc as (_ & Hi).
+    apply Nat.ltb_lt in Hlt. unfold is_est in Hes. apply sstate_eqb_eq in Hes.
+    destruct (kd (sk g o)) eqn:Ek; try exact HI.
+    apply data_inv; auto; cbn; auto; try congruence.
+    intro t'. eapply promoted_trans; [apply wake_all_promoted|apply wake_one_promoted].
+  - (* LFrmr *)
+    destruct (is_run (lpc g) && intab (sk g o) && Nat.ltb o (nsk g) && is_est (sk g o)) eqn:Hc; [|exact HI].
+    apply andb_true_iff in Hc. destruct Hc as (Hc & Hes). apply andb_true_iff in Hc. destruct Hc as (Hc & Hlt).
+    apply andb_true_iff in Hc. destruct Hc as (Hr & Hi). apply Nat.ltb_lt in Hlt.
+    destruct (kd (sk g o)) eqn:Ek; try exact HI.
+    unfold on_sock. rewrite <- Ek.
+    destruct (SS o) as (A & B & C & D & E & F).
+    apply close_inv; auto.
+    + intro X. destruct (C X) as (_ & Y & _). congruence.
+    + unfold glob_ok. cbn. split; [exact Gv|]. destruct (lpc g); try discriminate.
+      split; [discriminate|]. split; [|split; [|split]]; auto; try discriminate; try (intros; contradiction).
+      intro X. destruct (Nat.eq_dec 0 o) as [<-|N]; [rewrite upd_same; cbn; auto|rewrite upd_other by assumption; auto].
+  - (* LSdRes *)
+    destruct (is_run (lpc g) && negb (is_shut (sk g 0))); [|exact HI].
+    apply threads_inv; auto. intro t. left. apply wake_all_promoted.
+  - (* LTimeout *)
+    destruct (ts (thr g t)) as [|o p|o c p [|]|r] eqn:Ets; try exact HI.
+    apply threads_inv; auto. intro t'.
+    destruct (Nat.eq_dec t' t) as [->|N]; [rewrite upd_same|rewrite upd_other by assumption; left; apply promoted_refl].
+    left. right. exists o, c, p. auto.
+  - (* LTermBegin *)
+    destruct (lpc g) eqn:El; cbn; try exact HI.
+    assert (Ev : (match var g with Fixed => true | Orig => false end) = true) by (rewrite Gv; reflexivity). rewrite Ev.
+    apply ctl_inv; auto; try (rewrite El; discriminate).
+    unfold glob_ok. cbn. split; [exact Gv|]. split; [discriminate|]. split; [auto|]. split; [discriminate|]. auto.
+  - (* LTermPop *)
+    destruct (lpc g) eqn:El; try exact HI.
+    destruct (intab (sk g o) && Nat.ltb 0 o && Nat.ltb o (nsk g)) eqn:Hc; [|exact HI].
+    apply andb_true_iff in Hc. destruct Hc as (Hc & Hlt). apply andb_true_iff in Hc. destruct Hc as (Hi & Hpos).
+    apply Nat.ltb_lt in Hlt. apply Nat.ltb_lt in Hpos.
+    destruct (SS o) as (A & B & C & D & E & F).
+    assert (Htab : tabled (sk g o) = true).
+    { destruct (tabled (sk g o)) eqn:X; [reflexivity|]. destruct (C eq_refl) as (_ & Y & _). congruence. }
+    apply (frame_inv g _ o HI); cbn.
+    + reflexivity.
+    + exact Hlt.
+    + intros o' N. apply upd_other; assumption.
+    + rewrite upd_same. unfold evolves. cbn. auto.
+    + intro t. left. apply promoted_refl.
+    + rewrite upd_same. cbn. intros Hne Hs. contradiction.
+    + unfold sock_ok. cbn. rewrite upd_same. cbn. repeat split; auto; try congruence. intro; lia.
+    + intros o' N X. rewrite El in X. discriminate.
+    + unfold glob_ok. cbn. split; [exact Gv|]. split; [discriminate|]. split; [|split; [|split]]; auto.
+      * intro X. rewrite upd_other by lia. auto.
+      * intros o' X. inversion X; subst. rewrite upd_same. cbn. auto.
+      * intros _ _. apply Gh; try rewrite El; discriminate.
+  - (* LTermClose *)
+    destruct (lpc g) as [| |o|] eqn:El; try exact HI.
+    destruct (Gc o eq_refl) as (Gi & Glt).
+    destruct (SS o) as (A & B & C & D & E & F).
+    apply close_inv; auto.
+    + intro X. destruct (C X) as (Y & Z & _). auto.
+    + intros o' N X. inversion X. congruence.
+    + unfold glob_ok. cbn. split; [exact Gv|]. split; [discriminate|]. split; [|split; [|split]]; auto; try discriminate.
+      * intro X. destruct (Nat.eq_dec 0 o) as [<-|N]; [rewrite upd_same; cbn; auto|rewrite upd_other by assumption; auto].
+      * intros _ _. apply Gh; discriminate.
+  - (* LTermSd *)
+    destruct (lpc g) eqn:El; try exact HI. destruct (term g) eqn:Etm; [exact HI|].
+    destruct (SS 0) as (A & B & C & D & E & F).
+    apply close_inv; auto; try (intros o' N X; rewrite El in X; discriminate).
+    unfold glob_ok. cbn. split; [exact Gv|]. split; [discriminate|].
+    split; [intros _; try rewrite upd_same; reflexivity|].
+    split; [discriminate|]. split; [intros _ _; apply Gh; try rewrite El; discriminate|exact Gn].
+  - (* LTermEnd *)
+    destruct (lpc g) eqn:El; try exact HI.
+    destruct (term g && all_out_of_table g) eqn:Hc; [|exact HI].
+    apply andb_true_iff in Hc. destruct Hc as (Htm & Hall).
+    apply ctl_inv; auto; try (rewrite El; discriminate).
+    unfold glob_ok. cbn. split; [exact Gv|]. split; [|split; [auto|split; [discriminate|split; [congruence|exact Gn]]]].
+    intros _. repeat split; auto. intro o.
+    destruct (Nat.eq_dec o 0) as [->|N0]; [auto|].
+    destruct (le_lt_dec (nsk g) o) as [Hge|Hlt].
+    + destruct (SS o) as (_ & _ & _ & _ & _ & F). rewrite (F Hge). reflexivity.
+    + unfold all_out_of_table in Hall. rewrite forallb_forall in Hall.
+      specialize (Hall o). rewrite negb_true_iff in Hall. apply Hall. apply in_seq. lia.
+Qed.
+
+Lemma init_inv : Inv (init Fixed).
+Proof.
+  split; [|split].
+  - unfold glob_ok. cbn. repeat split; auto; try discriminate; try (intros; discriminate).
+  - intro t. exact I.
+  - intro o. unfold sock_ok. cbn. destruct o; cbn; repeat split; auto; try discriminate; try (intros; discriminate);
+      try (intros; exfalso; lia); try lia.
+Qed.
+
+Theorem reach_inv sched : Inv (run (init Fixed) sched).
+Proof. unfold run. generalize init_inv. generalize (init Fixed). induction sched as [|l r IH]; intros g H; cbn; auto.
+  apply IH. apply step_inv. exact H. Qed.
+
+(* ====================================================================================================
+   The property theorems (all schedules, any number of threads, repaired code)
+   ==================================================================================================== *)
+Definition reachable (g : gstate) : Prop := exists sched, g = run (init Fixed) sched.
+
+Lemma reachable_inv g : reachable g -> Inv g.
+Proof. intros (s & ->). apply reach_inv. Qed.
+Lemma reachable_step g l : reachable g -> reachable (step g l).
+Proof. intros (s & ->). exists (s ++ [l]). unfold run. rewrite fold_left_app. reflexivity. Qed.
+Lemma reachable_run g s : reachable g -> reachable (run g s).
+Proof. revert g. induction s as [|l r IH]; intros g H; cbn; auto. apply IH. apply reachable_step. exact H. Qed.
+
+(* a thread blocked on condition c of object o  =>  o is not shut down, or a notification is pending *)
+Theorem blocked_implies_open_inv g : Inv g ->
+  forall t o c p, ts (thr g t) = Blocked o c p false -> st (sk g o) <> SHUTDOWN.
+Proof. intros (_ & T & _) t o c p E. pose proof (T t) as H. unfold thr_ok in H. rewrite E in H.
+  destruct H as (_ & _ & _ & _ & H & _). auto. Qed.
+
+Theorem blocked_implies_open : forall sched t o c p,
+  let g := run (init Fixed) sched in
+  ts (thr g t) = Blocked o c p false -> st (sk g o) <> SHUTDOWN.
+Proof. intros sched t o c p g. apply blocked_implies_open_inv. apply reach_inv. Qed.
+
+(* once terminate() has completed no thread waits *)
+Lemma done_no_waiting g : Inv g -> lpc g = LDone -> forall t, waiting g t = false.
+Proof.
+  intros (G & T & SS) Hd t. destruct G as (Gv & Gd & Gt & Gc & Gh & Gn).
+  destruct (Gd Hd) as (Ht & Hh & Hi).
+  unfold waiting. destruct (ts (thr g t)) as [|o p|o c p [|]|r] eqn:E; auto.
+  exfalso. pose proof (T t) as H. unfold thr_ok in H. rewrite E in H.
+  destruct H as (_ & _ & Htab & _ & Hopen & _).
+  destruct (SS o) as (A & _). destruct (A Htab) as [X|[X|X]].
+  - rewrite Hi in X. discriminate.
+  - apply (Hopen eq_refl X).
+  - rewrite Hd in X. discriminate.
+Qed.
+
+Lemma done_stable g l : lpc g = LDone -> lpc (step g l) = LDone.
+Proof.
+  intro H. destruct l; cbn [step]; try (rewrite H; cbn; exact H).
+  - destruct (ts (thr g t)); auto. destruct (mode (thr g t)); auto.
+    destruct op; cbn; auto; try (destruct (ref_ok g _ _); auto).
+    destruct k; auto.
+  - destruct (ts (thr g t)) as [|o p|o c p [|]|r]; auto; destruct (runnable_point g p); auto;
+      unfold run_seg; destruct (o_act _); auto.
+  - destruct (ts (thr g t)); auto. unfold next_of, goto_call, with_thr.
+    destruct (mode (thr g t)); auto;
+      repeat match goal with |- context [match ?x with _ => _ end] => destruct x end; cbn; auto.
+  - destruct (ts (thr g t)) as [|o p|o c p [|]|r]; auto.
+Qed.
+
+Lemma done_stable_run s : forall g, lpc g = LDone -> lpc (run g s) = LDone.
+Proof. induction s as [|l r IH]; intros g H; cbn; auto. apply IH. apply done_stable. exact H. Qed.
+
+(* no_thread_left_waiting: after the shutdown transition no thread is blocked without a pending
+   notification, and none can newly block, whatever happens afterwards (s2) *)
+Theorem no_thread_left_waiting : forall s1 s2 t,
+  lpc (run (init Fixed) s1) = LDone -> waiting (run (init Fixed) (s1 ++ s2)) t = false.
+Proof.
+  intros s1 s2 t H. unfold run in *. rewrite fold_left_app.
+  apply done_no_waiting.
+  - apply reachable_inv. apply (reachable_run _ s2). exists s1. reflexivity.
+  - apply (done_stable_run s2). exact H.
+Qed.
+
+(* ---- what one step does after termination ------------------------------------------------------------ *)
+Lemma dead_benign g t o p orc :
+  Inv g -> lpc g = LDone ->
+  (ts (thr g t) = At o p \/ exists c, ts (thr g t) = Blocked o c p true) ->
+  benign (o_act (seg Fixed p (sk g o) true orc)).
+Proof.
+  intros (G & T & SS) Hd Hts. destruct G as (Gv & Gd & Gt & Gc & Gh & Gn).
+  destruct (Gd Hd) as (Ht & Hh & Hi).
+  destruct (SS o) as (A & B & C & D & E0 & F).
+  pose proof (T t) as Tt. unfold thr_ok in Tt.
+  destruct (tabled (sk g o)) eqn:Etab.
+  - assert (Hs : st (sk g o) = SHUTDOWN).
+    { destruct (A eq_refl) as [X|[X|X]]; auto; [rewrite Hi in X|rewrite Hd in X]; discriminate. }
+    apply seg_dead_shut; auto.
+    destruct Hts as [E|(c & E)]; rewrite E in Tt; tauto.
+  - destruct (C eq_refl) as (Cb & Ci & Cq).
+    destruct Hts as [E|(c & E)]; rewrite E in Tt.
+    + destruct Tt as (_ & Hk & Hp & _).
+      apply seg_dead_fresh; auto.
+      * intro Hk'. destruct (live (st (sk g o))) eqn:El; auto. pose proof (B Hk' eq_refl) as X. congruence.
+      * destruct (ptab p (kd (sk g o))) eqn:Ep; auto. pose proof (Hp eq_refl) as X. congruence.
+    + destruct Tt as (_ & _ & X & _). congruence.
+Qed.
+
+(* after_shutdown_total: once the link has terminated, whatever step is taken, no thread enters a
+   wait and every call that completes returns a value or raises nfc.llcp.Error *)
+Theorem after_shutdown_step g l t :
+  Inv g -> lpc g = LDone ->
+  match ts (thr (step g l) t) with
+  | Blocked _ _ _ false => False
+  | Done r => ts (thr g t) = Done r \/ good r = true
+  | _ => True
+  end.
+Proof.
+  intros HI Hd.
+  pose proof (done_no_waiting (step g l) (step_inv g l HI) (done_stable g l Hd) t) as Hw. unfold waiting in Hw.
+  destruct (ts (thr (step g l) t)) as [|o p|o c p [|]|r] eqn:E; auto; try discriminate.
+  pose proof HI as (G & T & SS). destruct G as (Gv & Gd & Gt & Gc & Gh & Gn).
+  destruct (Gd Hd) as (Ht & Hh & Hi).
+  destruct l as [t' op|t' orc|t' w|o x w|o d w|o n w|o| |t'| |o| | |]; cbn [step] in E;
+    try (rewrite Hd in E; cbn in E; try (destruct (kd (sk g o))); left; exact E).
+  - (* TIssue *)
+    destruct (ts (thr g t')) eqn:E1; try (left; exact E). destruct (mode (thr g t')) eqn:E2; try (left; exact E).
+    destruct op as [o|o e|o dw|o|o|o|o|o| |k|ls]; cbn in E;
+      try (destruct (ref_ok g _ _); [|left; exact E]; cbn in E;
+           destruct (Nat.eq_dec t t') as [->|N]; [rewrite upd_same in E; discriminate|rewrite upd_other in E by assumption; left; exact E]).
+    destruct k; try (left; exact E); cbn in E;
+      (destruct (Nat.eq_dec t t') as [->|N]; [rewrite upd_same in E; cbn in E; inversion E; right; reflexivity
+                                             |rewrite upd_other in E by assumption; left; exact E]).
+  - (* TRun *)
+    assert (Hrun : forall o p, (ts (thr g t') = At o p \/ exists c, ts (thr g t') = Blocked o c p true) ->
+              ts (thr (run_seg g t' o p orc) t) = Done r -> ts (thr g t) = Done r \/ good r = true).
+    { intros o p Hts. pose proof (dead_benign g t' o p orc HI Hd Hts) as Hb.
+      unfold run_seg. rewrite Gv, Ht.
+      destruct (o_act (seg Fixed p (sk g o) true orc)) eqn:Ea; cbn; intro E';
+        (destruct (Nat.eq_dec t t') as [->|N]; [rewrite upd_same in E'|rewrite upd_other in E' by assumption]);
+        try (cbn in E'; discriminate);
+        try (destruct (wake_all_promoted (thr g) o (o_nall (seg Fixed p (sk g o) true orc)) t) as [Eq|(o2 & c2 & p2 & E2 & Eq)];
+             rewrite Eq in E'; [left; exact E'|cbn in E'; discriminate]).
+      - cbn in E'. inversion E'; subst. right. exact Hb.
+      - cbn in E'. inversion E'; subst. right. reflexivity. }
+    destruct (ts (thr g t')) as [|o p|o c p [|]|r'] eqn:E1; try (left; exact E);
+      (destruct (runnable_point g p); [|left; exact E]); apply (Hrun o p); auto. right. exists c. reflexivity.
+  - (* TNext *)
+    destruct (ts (thr g t')) as [|o p|o c p b|r'] eqn:E1; try (left; exact E).
+    unfold next_of, goto_call, with_thr, upd in E.
+    repeat (cbn in E; match type of E with
+           | context [match ?x with _ => _ end] =>
+               lazymatch x with
+               | context [match _ with _ => _ end] => fail
+               | _ => destruct x eqn:?
+               end
+           end);
+      cbn in E; try discriminate; try (left; exact E);
+      try (match goal with H : Nat.eqb t t' = true |- _ => apply Nat.eqb_eq in H; subst t' end;
+           inversion E; subst; left; exact E1).
+  - (* LTimeout *)
+    destruct (ts (thr g t')) as [|o p|o c p [|]|r'] eqn:E1; try (left; exact E). cbn in E.
+    destruct (Nat.eq_dec t t') as [->|N]; [rewrite upd_same in E; discriminate|rewrite upd_other in E by assumption; left; exact E].
+Qed.
+
+Theorem after_shutdown_total : forall s1 s2 l t,
+  lpc (run (init Fixed) s1) = LDone ->
+  let g := run (init Fixed) (s1 ++ s2) in
+  match ts (thr (step g l) t) with
+  | Blocked _ _ _ false => False                       (* does not enter a wait *)
+  | Done r => ts (thr g t) = Done r \/ good r = true    (* returns a value or raises nfc.llcp.Error *)
+  | _ => True
+  end.
+Proof.
+  intros s1 s2 l t H g. apply after_shutdown_step.
+  - apply reach_inv.
+  - unfold g, run. rewrite fold_left_app. apply (done_stable_run s2). exact H.
+Qed.
+
+Lemma wake_all_mode thr o cs t : mode (wake_all thr o cs t) = mode (thr t).
+Proof. unfold wake_all. destruct (ts (thr t)) as [| | ? ? ? [|] |]; auto. destruct (_ && _); reflexivity. Qed.
+
+(* ---- bounded completion: after termination every own step of a thread brings its call nearer to its end -- *)
+Lemma done_own_step g t o p orc :
+  Inv g -> lpc g = LDone ->
+  (ts (thr g t) = At o p \/ exists c, ts (thr g t) = Blocked o c p true) ->
+  mode (thr (step g (TRun t orc)) t) = mode (thr g t) /\
+  match ts (thr (step g (TRun t orc)) t) with
+  | At o' q => o' = o /\ rank q < rank p /\
+               (srv_class p = true -> srv_class q = true)
+  | Done r => good r = true /\ (srv_class p = true -> is_llcp r = true) /\ (forall c, r <> Ok (VSock c))
+  | _ => False
+  end.
+Proof.
+  intros HI Hd Hts. pose proof (dead_benign g t o p orc HI Hd Hts) as Hb.
+  pose proof HI as (G & T & SS). destruct G as (Gv & Gd & Gt & Gc & Gh & Gn).
+  destruct (Gd Hd) as (Ht & Hh & Hi).
+  assert (Hsrv : srv_class p = true -> srv_out (o_act (seg Fixed p (sk g o) true orc))).
+  { intro Hc. destruct (SS o) as (A & B & C & D & E0 & F).
+    pose proof (T t) as Tt. unfold thr_ok in Tt.
+    destruct (tabled (sk g o)) eqn:Etab.
+    - assert (Hs : st (sk g o) = SHUTDOWN).
+      { destruct (A eq_refl) as [X|[X|X]]; auto; [rewrite Hi in X|rewrite Hd in X]; discriminate. }
+      apply seg_srv_shut; auto. destruct Hts as [E|(c & E)]; rewrite E in Tt; tauto.
+    - destruct (C eq_refl) as (Cb & Ci & Cq).
+      destruct Hts as [E|(c & E)]; rewrite E in Tt.
+      + destruct Tt as (_ & Hk & Hp & _). apply seg_srv_fresh; auto.
+        * intro Hk'. destruct (live (st (sk g o))) eqn:El; auto. pose proof (B Hk' eq_refl) as X. congruence.
+        * destruct (ptab p (kd (sk g o))) eqn:Ep; auto. pose proof (Hp eq_refl) as X. congruence.
+      + destruct Tt as (_ & _ & X & _). congruence. }
+  assert (Hstep : step g (TRun t orc) = run_seg g t o p orc).
+  { cbn [step]. assert (Hrp : runnable_point g p = true) by (unfold runnable_point; rewrite Hh, andb_false_r; reflexivity).
+    destruct Hts as [E|(c & E)]; rewrite E, Hrp; reflexivity. }
+  rewrite Hstep. unfold run_seg. rewrite Gv, Ht.
+  pose proof (seg_rank Fixed p (sk g o) true orc) as Hr.
+  pose proof (seg_ret_not_sock Fixed p (sk g o) true orc) as Hns.
+  destruct (seg_term_intab p (sk g o) orc (Hi o)) as (_ & Hna).
+  destruct (o_act (seg Fixed p (sk g o) true orc)) eqn:Ea; cbn; rewrite upd_same; cbn; rewrite ?wake_all_mode.
+  - split; [reflexivity|]. split; [reflexivity|]. split; [apply Hr; reflexivity|]. intro Hc. apply (Hsrv Hc).
+  - contradiction.
+  - split; [reflexivity|]. split; [exact Hb|]. split; [intro Hc; apply (Hsrv Hc)|]. intros c E. apply (Hns c). congruence.
+  - exfalso. apply (Hna s). reflexivity.
+Qed.
+
+Lemma run_cons g l s : run g (l :: s) = run (step g l) s.
+Proof. reflexivity. Qed.
+
+Lemma run_solo_done g t orcs r : ts (thr g t) = Done r -> run g (map (TRun t) orcs) = g.
+Proof. revert g. induction orcs as [|b l IH]; intros g E; [reflexivity|].
+  cbn [map]. rewrite run_cons.
+  assert (X : step g (TRun t b) = g) by (cbn [step]; rewrite E; reflexivity). rewrite X. apply IH. exact E. Qed.
+
+(* every call in progress after termination completes within rank p <= 4 steps of its thread, whatever
+   the other threads do in between is covered by after_shutdown_total; here the thread runs alone *)
+Theorem calls_complete : forall n g t o p,
+  Inv g -> lpc g = LDone ->
+  (ts (thr g t) = At o p \/ exists c, ts (thr g t) = Blocked o c p true) ->
+  rank p <= n -> forall orcs, n <= length orcs ->
+  exists r, ts (thr (run g (map (TRun t) orcs)) t) = Done r /\ good r = true.
+Proof.
+  induction n as [|n IH]; intros g t o p HI Hd Hts Hr orcs Hl.
+  - pose proof (rank_pos p). lia.
+  - destruct orcs as [|b l]; [cbn in Hl; lia|]. cbn [map]. rewrite run_cons.
+    destruct (done_own_step g t o p b HI Hd Hts) as (_ & Hs).
+    pose proof (step_inv g (TRun t b) HI) as HI'. pose proof (done_stable g (TRun t b) Hd) as Hd'.
+    destruct (ts (thr (step g (TRun t b)) t)) as [|o' q|o' c q bb|r] eqn:E; try contradiction.
+    + destruct Hs as (-> & Hq & _). apply (IH _ t o q); auto; try lia. cbn in Hl. lia.
+    + exists r. rewrite (run_solo_done _ t l r E). tauto.
+Qed.
+
+(* the calls that were blocked when the link ended: all are notified, and return / raise nfc.llcp.Error *)
+Theorem blocked_calls_return : forall s1 t o c p b,
+  let g := run (init Fixed) s1 in
+  lpc g = LDone -> ts (thr g t) = Blocked o c p b ->
+  b = true /\ forall orcs, 4 <= length orcs ->
+    exists r, ts (thr (run g (map (TRun t) orcs)) t) = Done r /\ good r = true.
+Proof.
+  intros s1 t o c p b g Hd E. pose proof (reach_inv s1) as HI. fold g in HI.
+  assert (Hb : b = true).
+  { pose proof (done_no_waiting g HI Hd t) as Hw. unfold waiting in Hw. rewrite E in Hw. destruct b; [reflexivity|discriminate]. }
+  split; [exact Hb|]. subst b. intros orcs Hl.
+  apply (calls_complete 4 g t o p HI Hd); [right; exists c; exact E|apply rank_le4|exact Hl].
+Qed.
+
+(* ---- server threads (SnepServer / HandoverServer listen and serve loops) exit ------------------------- *)
+Definition is_server (m : tmode) : bool :=
+  match m with MListen _ | MServe _ _ | MClosing _ _ => true | _ => false end.
+
+Definition mu (th : thread) : nat :=
+  match mode th with
+  | MExit _ | MApp => 0
+  | MClosing _ _ => match ts th with At _ p | Blocked _ _ p _ => 1 + rank p | _ => 1 end
+  | MListen _ | MServe _ _ =>
+      match ts th with
+      | At _ p | Blocked _ _ p _ => rank p + (if srv_class p then 6 else 12)
+      | Done r => if is_llcp r then 6 else 11
+      | Idle => 0
+      end
+  end.
+
+Definition srv_step (t w : nat) (orc : bool) (g : gstate) : gstate :=
+  match ts (thr g t) with Done _ => step g (TNext t w) | _ => step g (TRun t orc) end.
+
+Definition active (x : tstate) : Prop :=
+  match x with Idle => False | Done (Ok (VSock _)) => False | _ => True end.
+
+Lemma mu_bound th : mu th <= 16.
+Proof. unfold mu. destruct (mode th); try lia; destruct (ts th); try lia;
+  try (pose proof (rank_le4 p); destruct (srv_class p); lia); destruct (is_llcp r); lia. Qed.
+
+Lemma goto_call_thr g t o p md r :
+  thr (goto_call g t o p md r) t = mkThread (At o p) md \/ thr (goto_call g t o p md r) t = mkThread (Done r) (MExit ExCrash).
+Proof. unfold goto_call, with_thr. destruct (ref_ok g o p); cbn; rewrite upd_same; auto. Qed.
+
+(* servers_exit, one step: after termination every own step of a server thread strictly decreases mu;
+   a thread in a server mode never waits, and a call it issues from its loop ends in the
+   nfc.llcp.Error handler (next_of: Err (LlcpError _) -> MClosing _ ExHandler) *)
+Theorem server_step_decreases g t w orc :
+  Inv g -> lpc g = LDone -> is_server (mode (thr g t)) = true -> active (ts (thr g t)) ->
+  let g' := srv_step t w orc g in
+  mu (thr g' t) < mu (thr g t) /\
+  (is_server (mode (thr g' t)) = true -> active (ts (thr g' t))) /\
+  (is_server (mode (thr g' t)) = true \/ exists how, mode (thr g' t) = MExit how).
+Proof.
+  intros HI Hd Hm Ha g'. subst g'. unfold srv_step.
+  pose proof (done_no_waiting g HI Hd t) as Hw. unfold waiting in Hw.
+  destruct (ts (thr g t)) as [|o p|o c p b|r] eqn:E; try contradiction.
+  - (* in a call *)
+    destruct (done_own_step g t o p orc HI Hd (or_introl E)) as (Em & Hs).
+    unfold mu. rewrite Em, E.
+    destruct (ts (thr (step g (TRun t orc)) t)) as [|o' q|o' c' q bb|r] eqn:E'; try contradiction.
+    + destruct Hs as (-> & Hq & Hc). rewrite Hm.
+      split; [|split; [intros _; exact I|left; reflexivity]].
+      destruct (mode (thr g t)); try discriminate;
+        try (destruct (srv_class p); [rewrite (Hc eq_refl)|destruct (srv_class q)]); lia.
+    + destruct Hs as (Hg & Hc & Hns). rewrite Hm.
+      split; [|split; [intros _; destruct r as [[| | |c|]| | |]; cbn; auto; apply (Hns c); reflexivity|left; reflexivity]].
+      pose proof (rank_pos p).
+      destruct (mode (thr g t)); try discriminate;
+        try (destruct (srv_class p); [rewrite (Hc eq_refl)|destruct (is_llcp r)]); lia.
+  - (* woken, or still notified *)
+    destruct b; [|discriminate].
+    destruct (done_own_step g t o p orc HI Hd (or_intror (ex_intro _ c E))) as (Em & Hs).
+    unfold mu. rewrite Em, E.
+    destruct (ts (thr (step g (TRun t orc)) t)) as [|o' q|o' c' q bb|r] eqn:E'; try contradiction.
+    + destruct Hs as (-> & Hq & Hc). rewrite Hm.
+      split; [|split; [intros _; exact I|left; reflexivity]].
+      destruct (mode (thr g t)); try discriminate;
+        try (destruct (srv_class p); [rewrite (Hc eq_refl)|destruct (srv_class q)]); lia.
+    + destruct Hs as (Hg & Hc & Hns). rewrite Hm.
+      split; [|split; [intros _; destruct r as [[| | |c0|]| | |]; cbn; auto; apply (Hns c0); reflexivity|left; reflexivity]].
+      pose proof (rank_pos p).
+      destruct (mode (thr g t)); try discriminate;
+        try (destruct (srv_class p); [rewrite (Hc eq_refl)|destruct (is_llcp r)]); lia.
+  - (* a result is consumed *)
+    cbn [step]. rewrite E. unfold next_of.
+    destruct (mode (thr g t)) as [|ls|c ph|o how|how] eqn:Em; try discriminate.
+    + (* accept loop *)
+      destruct r as [[| | |c|]|[]|c|]; try contradiction;
+        match goal with
+        | |- context [goto_call g t ?o ?p ?md ?r] =>
+            destruct (goto_call_thr g t o p md r) as [X|X]; rewrite X; unfold mu; cbn; rewrite ?Em, ?E; cbn;
+            (split; [try lia|split; [intros _; exact I|try (left; reflexivity); try (right; eexists; reflexivity)]])
+        end.
+    + (* serve loop *)
+      destruct r as [[|[|]| |c'|]|[]|c'|]; try contradiction; try destruct ph as [|[|ph]];
+        match goal with
+        | |- context [goto_call g t ?o ?p ?md ?r] =>
+            destruct (goto_call_thr g t o p md r) as [X|X]; rewrite X; unfold mu; cbn; rewrite ?Em, ?E; cbn;
+            (split; [try lia|split; [intros _; exact I|try (left; reflexivity); try (right; eexists; reflexivity)]])
+        end.
+    + (* the final close() has returned *)
+      unfold with_thr. cbn. rewrite upd_same. unfold mu. cbn. rewrite Em, E.
+      split; [lia|split; [discriminate|right; eexists; reflexivity]].
+Qed.
+
+(* a call of a server loop (accept / poll / recv / send, entered at PAcc1 / PPoll0 / PRecv0 / PSend0) that
+   runs after termination ends by raising nfc.llcp.Error: the loop is left through its handler *)
+Theorem server_calls_raise : forall n g t o p,
+  Inv g -> lpc g = LDone ->
+  (ts (thr g t) = At o p \/ exists c, ts (thr g t) = Blocked o c p true) ->
+  srv_class p = true -> rank p <= n -> forall orcs, n <= length orcs ->
+  exists r, ts (thr (run g (map (TRun t) orcs)) t) = Done r /\ is_llcp r = true.
+Proof.
+  induction n as [|n IH]; intros g t o p HI Hd Hts Hc Hr orcs Hl.
+  - pose proof (rank_pos p). lia.
+  - destruct orcs as [|b l]; [cbn in Hl; lia|]. cbn [map]. rewrite run_cons.
+    destruct (done_own_step g t o p b HI Hd Hts) as (_ & Hs).
+    pose proof (step_inv g (TRun t b) HI) as HI'. pose proof (done_stable g (TRun t b) Hd) as Hd'.
+    destruct (ts (thr (step g (TRun t b)) t)) as [|o' q|o' c q bb|r] eqn:E; try contradiction.
+    + destruct Hs as (-> & Hq & Hcq). apply (IH _ t o q); auto; try lia. cbn in Hl. lia.
+    + exists r. rewrite (run_solo_done _ t l r E). destruct Hs as (_ & X & _). auto.
+Qed.
+
+Lemma handler_is_taken g t w ls e :
+  mode (thr g t) = MListen ls -> ts (thr g t) = Done (Err (LlcpError e)) ->
+  step g (TNext t w) = goto_call g t ls PClose0 (MClosing ls ExHandler) (Err (LlcpError e)).
+Proof. intros Em E. cbn [step]. rewrite E, Em. reflexivity. Qed.
+Lemma handler_is_taken_serve g t w c ph e :
+  mode (thr g t) = MServe c ph -> ts (thr g t) = Done (Err (LlcpError e)) ->
+  step g (TNext t w) = goto_call g t c PClose0 (MClosing c ExHandler) (Err (LlcpError e)).
+Proof. intros Em E. cbn [step]. rewrite E, Em. reflexivity. Qed.
+
+Fixpoint srv_run (t w : nat) (orcs : list bool) (g : gstate) : gstate :=
+  match orcs with [] => g | b :: l => srv_run t w l (srv_step t w b g) end.
+
+Lemma srv_step_inv t w b g : Inv g -> Inv (srv_step t w b g).
+Proof. intro H. unfold srv_step. destruct (ts (thr g t)); apply step_inv; exact H. Qed.
+Lemma srv_step_done t w b g : lpc g = LDone -> lpc (srv_step t w b g) = LDone.
+Proof. intro H. unfold srv_step. destruct (ts (thr g t)); apply done_stable; exact H. Qed.
+
+(* servers_exit: after termination a server thread (accept loop, serve loop, or the final close())
+   has exited after at most mu <= 16 of its own steps, for every choice of the oracle bits *)
+Theorem servers_exit : forall n g t w,
+  Inv g -> lpc g = LDone -> is_server (mode (thr g t)) = true -> active (ts (thr g t)) ->
+  mu (thr g t) <= n -> forall orcs, n <= length orcs ->
+  exists k how, k <= n /\ mode (thr (srv_run t w (firstn k orcs) g) t) = MExit how.
+Proof.
+  induction n as [|n IH]; intros g t w HI Hd Hm Ha Hmu orcs Hl.
+  - exfalso. destruct orcs as [|b l].
+    + pose proof (server_step_decreases g t w true HI Hd Hm Ha) as (X & _). lia.
+    + pose proof (server_step_decreases g t w b HI Hd Hm Ha) as (X & _). lia.
+  - destruct orcs as [|b l]; [cbn in Hl; lia|].
+    destruct (server_step_decreases g t w b HI Hd Hm Ha) as (Hlt & Hact & [Hs|(how & Hx)]).
+    + destruct (IH (srv_step t w b g) t w (srv_step_inv t w b g HI) (srv_step_done t w b g Hd) Hs (Hact Hs) ltac:(lia) l ltac:(cbn in Hl; lia))
+        as (k & how & Hk & Hmode).
+      exists (S k), how. split; [lia|]. cbn. exact Hmode.
+    + exists 1, how. split; [lia|]. cbn. exact Hx.
+Qed.
+
+(* ====================================================================================================
+   The unrepaired code (variant Orig): refutation witnesses, each a concrete schedule
+   ==================================================================================================== *)
+Definition bound_raw (v : variant) : gstate :=
+  run (init v) [TIssue 1 (ONew RAW); TNext 1 0; TIssue 1 (OBind 1); TRun 1 true; TRun 1 true; TNext 1 0].
+Definition terminate_all : list label := [LTermBegin; LTermPop 1; LTermClose; LTermSd; LTermEnd].
+
+(* RawAccessPoint.recv: the state test is made outside the lock; terminate() runs between the
+   test and the wait; the caller is left waiting on a socket that is shut down *)
+Definition lost_wakeup (v : variant) : gstate :=
+  run (bound_raw v) ([TIssue 5 (ORecv 1); TRun 5 true] ++ terminate_all ++ [TRun 5 true]).
+
+Lemma orig_lost_wakeup :
+  let g := lost_wakeup Orig in
+  lpc g = LDone /\ ts (thr g 5) = Blocked 1 RecvReady PRecv2 false /\ st (sk g 1) = SHUTDOWN.
+Proof. vm_compute. repeat split. Qed.
+Lemma fixed_same_schedule_returns : ts (thr (lost_wakeup Fixed) 5) = Done (Err (LlcpError ESHUTDOWN)).
+Proof. vm_compute. reflexivity. Qed.
+
+(* a socket created, bound and connected after termination waits for a CC that can never arrive *)
+Definition late_connect (v : variant) : gstate :=
+  run (bound_raw v) (terminate_all ++ [TIssue 7 (ONew DLC); TNext 7 0; TIssue 7 (OConnect 2); TRun 7 true; TRun 7 true; TRun 7 true]).
+Lemma orig_late_connect_hangs :
+  let g := late_connect Orig in lpc g = LDone /\ ts (thr g 7) = Blocked 2 RecvReady PConn2 false.
+Proof. vm_compute. repeat split. Qed.
+Lemma fixed_late_connect_raises : ts (thr (late_connect Fixed) 7) = Done (Err (LlcpError ESHUTDOWN)).
+Proof. vm_compute. reflexivity. Qed.
+
+(* llc.resolve() after termination: AttributeError *)
+Definition late_resolve (v : variant) : gstate := run (bound_raw v) (terminate_all ++ [TIssue 7 OResolve; TRun 7 true]).
+Lemma orig_late_resolve_crashes : ts (thr (late_resolve Orig) 7) = Done (Crash AttributeErr).
+Proof. vm_compute. reflexivity. Qed.
+Lemma fixed_late_resolve_none : ts (thr (late_resolve Fixed) 7) = Done (Ok VNone).
+Proof. vm_compute. reflexivity. Qed.
